@@ -22,6 +22,7 @@ def bounds(tier):
     return {"flag_deviations": 1 if q else 2, "full_cross_product": "none" if q else "shapes with <= 3 arcs (DAG) / <= 4 arcs (cyclic)",
             "constraint_sweep": ("every flow from <= 3 routes (weights <= 2) of every DAG shape with 3..%d arcs x every contiguous 2-/3-arc constraint x 3 length patterns x coverage_length 0.5, "
                                  "constraint-related flags only" % (4 if q else 5)) + ("" if q else "; the same on the 3 larger named DAGs (caterpillar, double diamond, ladder)"),
+            "off_walk_graphs": "6 hand-written cyclic graphs with arcs on no source-sink walk (dead-end / source-less / isolated cycles) x ignored or not x additional end x every single flag flip",
             "instances": "W-DAG(n<=4) x 2 flows; cyclic W-DIG(n<=4, arcs<=5)+named x 2 flows" if q else "W-DAG(n<=5, arcs<=6) x 2; cyclic W-DIG(n<=4, arcs<=6)+W-NAMED x 2"}
 
 
@@ -44,10 +45,66 @@ def cases(tier, seed):
     for inst in sweep.spine_instances(tier, seed):
         for cls in ("kFlowDecomp", "kMinPathError", "kLeastAbsErrors", "MinFlowDecomp"):
             yield dict(inst, cls=cls, level=1)
+    for name in OFFWALK:
+        for cls in sweep.CYC_CLASSES:
+            yield {"offwalk": name, "cls": cls, "fam": "cyc"}
     for inst in sweep.cyc_instances(tier, seed):
         for cls in sweep.CYC_CLASSES:
             lvl = 1 if q else (3 if len(inst["arcs"]) <= 4 else 2)
             yield dict(inst, cls=cls, level=lvl)
+
+
+# Graphs in which some arcs lie on NO source-to-sink walk (the documented domain of the error / cover models is 'a directed graph';
+# for the others such arcs can be ignored): a base route s->a->t (and a diamond) with a dead-end 2-cycle, a source-less 2-cycle,
+# an isolated 2-cycle, a dead-end self-loop or a dead-end arc into a cycle attached at an inner node.
+OFFWALK = {
+    "deadend_cycle": ([("s", "a", 5), ("a", "t", 5)], [("a", "c", 2), ("c", "d", 2), ("d", "c", 2)]),
+    "sourceless_cycle": ([("s", "a", 5), ("a", "t", 5)], [("c", "a", 2), ("c", "d", 2), ("d", "c", 2)]),
+    "isolated_cycle": ([("s", "a", 5), ("a", "t", 5)], [("c", "d", 2), ("d", "c", 2)]),
+    "deadend_selfloop": ([("s", "a", 5), ("a", "t", 5)], [("a", "c", 2), ("c", "c", 2)]),
+    "deadend_cycle_on_cycle": ([("s", "a", 5), ("a", "b", 7), ("b", "a", 2), ("b", "t", 5)], [("b", "c", 2), ("c", "d", 2), ("d", "c", 2)]),
+    "both_sides": ([("s", "a", 3), ("s", "b", 2), ("a", "t", 3), ("b", "t", 2)], [("x", "y", 1), ("y", "x", 1), ("y", "a", 1), ("b", "u", 1), ("u", "u", 1)]),
+}
+
+
+def _offwalk(case):
+    """differential for the OFFWALK graphs: every flag assignment within one flip of the default must give the result of all-off
+    (an exception other than a documented ValueError is a changed result)"""
+    viol, nt, tags = [], [], collections.Counter()
+    cls = case["cls"]
+    base, extra = OFFWALK[case["offwalk"]]
+    arcs = [list(a) for a in base + extra]
+    nodes = list(dict.fromkeys(x for a in arcs for x in a[:2]))
+    inst = {"fam": "cyc", "nodes": nodes, "arcs": arcs}
+    cover = cls in sweep.COVER
+    for ign in (False, True):
+        for extra_end in (False, True):
+            kw0 = {} if cover else {"weight_type": "int"}
+            if cls.startswith("k"):
+                kw0["k"] = 2
+            if ign:
+                kw0["elements_to_ignore"] = [list(a[:2]) for a in extra]
+            if extra_end:
+                if cls == "MinFlowDecompCycles":
+                    continue
+                kw0["additional_ends"] = ["a"]
+            assignments = sweep.flag_sets(cls, 1)
+            ref_obs = drivers.observe(dict(inst, cls=cls, kw=dict(kw0, optimization_options=dict(assignments[1][1]))))
+            ref = ("exc", ref_obs["exc_type"]) if ref_obs["exc"] else _objective(cls, ref_obs, "walks")
+            if ref_obs["exc"] and ref_obs["exc_type"] != "ValueError":
+                viol.append({"kind": "reference_exception", "msg": f"{cls}({case['offwalk']}, ignored={ign}, additional end={extra_end}, all optimisations off) raised {ref_obs['exc']}"})
+                continue
+            for aname, fl in [assignments[0]] + assignments[2:]:
+                obs = drivers.observe(dict(inst, cls=cls, kw=dict(kw0, optimization_options=dict(fl))))
+                tags["runs"] += 1
+                cur = ("exc", obs["exc_type"]) if obs["exc"] else _objective(cls, obs, "walks")
+                ctx = f"{cls}({case['offwalk']}: arcs {arcs}, off-walk arcs ignored={ign}, additional end at a={extra_end}; options {aname})"
+                if cur != ref:
+                    viol.append({"kind": "option_raises" if obs["exc"] else "option_changes_result", "opt": aname,
+                                 "msg": f"{ctx}: {cur} {obs['exc'] or ''}, with all optimisations off: {ref}"})
+                    break
+                nt.append(f"{cls}|{case['offwalk']}|{ign}|{extra_end}|{aname}")
+    return {"v": viol[:4], "nt": nt, "tags": dict(tags), "out": "viol" if viol else "ok"}
 
 
 def _objective(cls, obs, rkey):
@@ -65,6 +122,8 @@ def run(case):
     nt = []
     tags = collections.Counter()
     cls = case["cls"]
+    if case.get("offwalk"):
+        return _offwalk(case)
     cyc = sweep.is_cyc(cls)
     rkey = "walks" if cyc else "paths"
     ckey = "subset_constraints" if cyc else "subpath_constraints"
